@@ -578,6 +578,62 @@ pub static OPS: &[OpDef] = &[
             }
         }
     }),
+    // ---- remaining per-geometry algorithms, over every geometry type built from the input
+    op!("misc_per_type", ANY, false, false, |i, o| {
+        let poly = first_poly(i);
+        let ring = first_ring(i);
+        let line = i.lines.first().copied().unwrap_or_else(|| Line::new(Coord { x: 0.0, y: 0.0 }, Coord { x: 1.0, y: 1.0 }));
+        let rect = poly.bounding_rect().unwrap_or_else(|| Rect::new(Coord { x: 0.0, y: 0.0 }, Coord { x: 1.0, y: 1.0 }));
+        let tri = match ring.0[..] {
+            [a, b, c, ..] => Triangle::new(a, b, c),
+            _ => Triangle::new(Coord { x: 0.0, y: 0.0 }, Coord { x: 1.0, y: 0.0 }, Coord { x: 0.0, y: 1.0 }),
+        };
+        let gs: Vec<Geometry<f64>> = vec![
+            Geometry::Point(i.pts.0.first().copied().unwrap_or_else(|| Point::new(0.0, 0.0))),
+            Geometry::Line(line),
+            Geometry::LineString(ring.clone()),
+            Geometry::Polygon(poly.clone()),
+            Geometry::MultiPoint(MultiPoint::new(i.pts.0.iter().take(200).copied().collect())),
+            Geometry::MultiLineString(i.mls.clone()),
+            Geometry::MultiPolygon(MultiPolygon::new(i.a.0.iter().take(100).cloned().collect())),
+            Geometry::Rect(rect),
+            Geometry::Triangle(tri),
+            Geometry::GeometryCollection(collection(i)),
+        ];
+        let probe = i.pts.0.get(1).copied().unwrap_or_else(|| Point::new(0.5, 0.25));
+        for g in &gs {
+            w_opt_pt(o, &g.centroid());
+            w_opt_pt(o, &g.interior_point());
+            w_dbg(o, &g.bounding_rect());
+            o.f64(g.unsigned_area());
+            w_poly(o, &g.convex_hull());
+            w_closest(o, &g.closest_point(&probe));
+            w_dbg(o, &g.dimensions());
+            o.u64(g.coords_count() as u64);
+            o.bool(g.intersects(&probe));
+            o.bool(g.contains(&probe));
+            o.f64(Euclidean.distance(g, &probe));
+            w_dbg(o, &g.extremes());
+        }
+        // pairwise predicates between the first members (booleans and matrices)
+        for (k, a) in i.a.0.iter().take(8).enumerate() {
+            for b in i.a.0.iter().take(8).skip(k) {
+                o.bool(a.intersects(b));
+                o.bool(a.contains(b));
+                o.bool(a.is_within(b));
+            }
+        }
+        if ring.0.len() >= 2 {
+            w_opt_pt(o, &ring.line_interpolate_point(0.37));
+            let ll = LineString::new(ring.0.iter().take(60).map(|c| Coord { x: (c.x * 0.37) % 170.0, y: (c.y * 0.23) % 80.0 }).collect());
+            o.f64(ll.vincenty_length().unwrap_or(-1.0));
+            match ll.line_segmentize_haversine(4) {
+                Some(m) => w_mls(o, &m),
+                None => o.tag(0),
+            }
+            w_ls(o, &geo::algorithm::DensifyHaversine::densify_haversine(&ll, 100_000.0));
+        }
+    }),
     // ---- the par-iter surface of geo-types (user-level ordered collects)
     op!("par_iter_multipolygon", POLY_FAMS, false, false, |i, o| {
         let areas: Vec<f64> = i.a.par_iter().map(|p| p.unsigned_area()).collect();
